@@ -41,3 +41,15 @@ Theorem tie_mutators_seen :
   negb (match writes_of "ordered" "Map.Delete" with [] => true | _ => false end) &&
   negb (match writes_of "ordered" "Map.Replace" with [] => true | _ => false end) = true.
 Proof. vm_compute. reflexivity. Qed.
+
+(** no package-level variable can carry mutable state reachable through its methods: every package-level
+    variable is initialised by an error constructor, a compiled regexp, a function value or a literal, the one
+    exception being the slice ValidSigningAlgorithms (built once by concatenating three literal slices, and
+    never written: tie_no_global_writes).  A variable initialised by any other call (a constructor returning
+    an object with mutating methods, e.g. a shared env) or not initialised at all is hidden shared state. *)
+Definition inert_kind (k : string) : bool :=
+  existsb (String.eqb k) ["error"; "regexp"; "func"; "literal"; "nil-conversion"].
+Theorem tie_globals_inert :
+  filter (fun r => negb (inert_kind (snd r))) package_global_kinds
+  = [("jwkutil", "ValidSigningAlgorithms", "other-call")].
+Proof. vm_compute. reflexivity. Qed.
